@@ -87,7 +87,7 @@ def one_part_of_a_statistics_reply(b):
   flags = b.int("flags", 0, 0xffff)
   uid = b.int("uid", 0, 1 << 30)
   ofp = b.new(of.ofp_stats_reply)
-  b.set(ofp, "xid", xid)
+  b.set(ofp, "_xid", xid)
   b.set(ofp, "type", typ)
   b.set(ofp, "flags", flags)
   b.set(ofp, "uid", uid)
